@@ -117,6 +117,23 @@ def sessions(tier: str, seed: int, kinds=vloop.CLIENTS):
                             log, _ = cf.run(kind, plan, susp, status_cb=cb, t_end=40.0)
                             logs.append(log)
                             meta.append((kind, "close", f"suspended-send{nsend}{'-fails' if fail else ''}", cb, f"+{dt}s"))
+        # the gateway's "Sorry,Limited" banner (EByte): the client gives the link up 30 s later; every change of the
+        # state on the way must be notified, also when close() arrives while the client is waiting
+        if kind == "ebyte":
+            for cb in ("ok", "slow", "raise"):
+                plan = cf.Plan(refuse=0)
+                log, _ = cf.run(kind, plan, c13.fault_injector(kind, "sorry", None, 3.0, plan), status_cb=cb, t_end=80.0)
+                logs.append(log)
+                meta.append((kind, "sorry", "accept", cb, "t=3.0"))
+                for dt in (0.0, 0.001, 0.1, 0.29, 5.0, 29.9, 30.1):
+                    plan = cf.Plan(refuse=0)
+
+                    def banner_close(s, state, plan=plan, dt=dt):
+                        c13.fault_injector(kind, "sorry", None, 3.0 + (0.15 if dt < 1 else 0), plan)(s, state)
+                        closer(None, 3.0 + dt, ("connect",))(s, state)
+                    log, _ = cf.run(kind, plan, banner_close, status_cb=cb, t_end=80.0)
+                    logs.append(log)
+                    meta.append((kind, "close", "sorry-banner", cb, f"+{dt}s"))
         # faults with raising / suspending callbacks: notification clauses
         for cb in ("raise", "slow"):
             for fault in ("eof", "write-error"):
